@@ -853,7 +853,7 @@ func (m *Machine) OpImportScript(t *rapid.T) {
 }
 
 // OpSetSyncedTo moves the sync stamp.
-func (m *Machine) OpSetSyncedTo(t *rapid.T) {
+func (m *Machine) OpSetSyncedTo(t *rapid.T, fate Fate) {
 	h := m.SyncedTo.Height + int32(rapid.IntRange(-1, 1).Draw(t, "syncDelta"))
 	if h < 0 {
 		h = 0
@@ -861,13 +861,15 @@ func (m *Machine) OpSetSyncedTo(t *rapid.T) {
 	var hash chainhash.Hash
 	hash[0], hash[1], hash[2] = byte(h), byte(h>>8), byte(rapid.IntRange(0, 255).Draw(t, "fork"))
 	bs := waddrmgr.BlockStamp{Height: h, Hash: hash, Timestamp: m.Birthday.Add(0)}
-	err, committed := m.Tx(Commit, func(ns walletdb.ReadWriteBucket) error { return m.Mgr.SetSyncedTo(ns, &bs) })
-	m.Case.Logf("set-synced-to h=%d -> %v", h, err)
+	err, committed := m.Tx(fate, func(ns walletdb.ReadWriteBucket) error { return m.Mgr.SetSyncedTo(ns, &bs) })
+	m.Case.Logf("set-synced-to h=%d fork=%d [%v] -> %v", h, hash[2], fate, err)
 	if err != nil {
 		m.Violation("SetSyncedTo failed: %v", err)
 	}
 	if committed {
 		m.SyncedTo = bs
+	} else {
+		m.N["set-synced-to-rolled-back"]++
 	}
 }
 
